@@ -6,6 +6,9 @@ CONSTANTS
   Pids = {1}
   MaxFiles = 1
   ExtraNext = 3
+  HVSet = {FALSE, TRUE}
+  HFSet = {FALSE, TRUE}
+  ReuseSet = {FALSE}
   Emit = TRUE
 INVARIANTS OrderAndContent EofExact CountPreserved MismatchIsError NothingAfterError FileIsHistory Leaf
 CHECK_DEADLOCK FALSE
